@@ -29,7 +29,7 @@ func C19(c *Ctx) {
 	}
 	c.R.Rule("C19-R6", "E3", "one buffered reader of the subprocess's output per session", 1)
 	c19Reader(c, run)
-	c.R.Rule("C19-R11", "E3", "a step's completion signal is only sent by a worker that finished without error", 2)
+	c.R.Rule("C19-R11", "E3", "a step's completion signal is only sent by a worker that finished without error", 1)
 	c19SuccessOnlyAfterSuccess(c, "C19-R11")
 	c.R.Rule("C19-R8", "E3", "a step's timeout is armed once per step (it runs from the start of the step)", 1)
 	c19TimeoutArmedOnce(c, "C19-R8", run)
